@@ -19,7 +19,8 @@
 //! stream is still in frame; (2) every schedule is compared with the
 //! reference run: equal octets after deleting Serial Notify PDUs, Serial
 //! Notify only between responses and on PDU boundaries, at most one per notify
-//! event; at every quiescence the responses determined by the octets
+//! event and at least one when notify events reached a connection that stayed
+//! open; at every quiescence the responses determined by the octets
 //! delivered so far are on the wire (a malformed header is answered from its 8
 //! octets); the connection ends after the close; no panic, livelock or spin.
 
@@ -678,7 +679,10 @@ fn main() {
     }
 
     // --replay: only the stream and the schedule named by the witness
-    let replay_case: Option<(String, Vec<Ev>)> = ctx.replay.as_ref().map(|(_, w)| {
+    // (a witness of the data.sizes space names its own data set and stream; the other spaces then run on one stream only)
+    let data_replay = ctx.replay.as_ref().map(|(_, w)| w.starts_with("data=")).unwrap_or(false);
+    if data_replay { streams.truncate(1) }
+    let replay_case: Option<(String, Vec<Ev>)> = ctx.replay.as_ref().filter(|_| !data_replay).map(|(_, w)| {
         let names = w.split_whitespace().find_map(|t| t.strip_prefix("stream=")).unwrap_or("").to_string();
         let sched = w.split_once("sched=").and_then(|(_, r)| parse_script(r));
         match sched {
@@ -690,7 +694,7 @@ fn main() {
 
     // deviation bound per stream size: [1 PDU, 2 PDUs, 3 PDUs]
     let bound_by_pdus: [usize; 3] = ctx.tier.pick([3, 3, 2], [4, 4, 3]);
-    let max_bound = *bound_by_pdus.iter().max().unwrap();
+    let max_bound = if data_replay { 0 } else { *bound_by_pdus.iter().max().unwrap() };
 
     //--- (1) reference runs against the protocol model ----------------------
     let sp = ctx.space("reference.model",
@@ -819,7 +823,7 @@ fn main() {
 
     //--- (2) schedules -------------------------------------------------------
     let sp = ctx.space("schedules",
-        "per stream: every set of <= 3 cut positions x notify events at every position of the event order (own batch / batched with a chunk / two in one batch) with cuts + notifies <= bound, close after quiescence and (deviation <= 2) close batched with the last event; plus 1-octet-write and 1-octet-read variants at deviation <= 1 and, with one notify, the response held back after k octets (k in 0,1,7,8,9,27,28,60,129) until after the notify; each compared with the reference run of the same octets, and at every run to quiescence with the responses the model says are determined by the octets delivered so far; non-trivial = schedules with at least one deviation");
+        "per stream: every set of <= 3 cut positions x notify events at every position of the event order (own batch / batched with a chunk / two in one batch) with cuts + notifies <= bound, close after quiescence and (deviation <= 2) close batched with the last event; plus 1-octet-write and 1-octet-read variants at deviation <= 1 and, with one notify, the response held back after k octets (k in 0,1,7,8,9,27,28,60,129) until after the notify, and bursts of 2, 3 and 5 notify events in one batch on the idle connection, between / together with fragments of the first header and during a held-back response; each compared with the reference run of the same octets, and at every run to quiescence with the responses the model says are determined by the octets delivered so far; non-trivial = schedules with at least one deviation");
     let transcripts: Mutex<HashSet<u64>> = Mutex::new(HashSet::new());
     let inside_pdu = AtomicU64::new(0);
     let first_last: Mutex<Option<(usize, Vec<Ev>, usize, Vec<Ev>)>> = Mutex::new(None);
@@ -862,6 +866,14 @@ fn main() {
                 }
                 if let Some(d) = prompt_check(script, &obs.marks, &st.due, &parsed.unit_raw_end) {
                     bad.push(("C08.sched.prompt", d));
+                }
+                // a notification the live connection had time to see must show up as a Serial Notify:
+                // some notify event is followed by a run to quiescence before the client closes
+                let close_at = script.iter().position(|e| matches!(e, Ev::Close)).unwrap_or(script.len());
+                let settled_notify = script[..close_at].iter().enumerate().any(|(i, e)| matches!(e, Ev::Notify) && script[i..close_at].iter().any(|x| matches!(x, Ev::Settle)));
+                let held_back = script.iter().any(|e| matches!(e, Ev::WriteBudget(_))) && !script[..close_at].iter().any(|e| matches!(e, Ev::Unblock));
+                if settled_notify && obs.alive_before_close && !held_back && parsed.notifies == 0 {
+                    bad.push(("C08.sched.notify_delivered", format!("{fired} notify events reached a connection that stayed open, no Serial Notify was sent")));
                 }
             }
         }
@@ -944,6 +956,23 @@ fn main() {
                         let mut w = vec![Ev::WriteChunk(1)]; w.extend_from_slice(b); scs.push(w);
                         let mut w = vec![Ev::ShortWrite(1)]; w.extend_from_slice(b); scs.push(w);
                         let mut r = vec![Ev::ReadChunk(1)]; r.extend_from_slice(b); scs.push(r);
+                    }
+                }
+                if bound == 2 && cuts.is_empty() && j == 2 {
+                    // notification bursts: n notify() calls in one batch, on the idle connection (before / after
+                    // the queries), between and together with fragments of the first header, and while a response is held back
+                    let l = st.bytes.len();
+                    for n in [2usize, 3, 5] {
+                        let burst = |sc: &mut Vec<Ev>| { for _ in 0..n { sc.push(Ev::Notify) } };
+                        let mut a = vec![]; burst(&mut a); a.extend([Ev::Settle, Ev::Deliver(l), Ev::Settle, Ev::Close, Ev::Settle]); scs.push(a);
+                        let mut a = vec![Ev::Deliver(l), Ev::Settle]; burst(&mut a); a.extend([Ev::Settle, Ev::Close, Ev::Settle]); scs.push(a);
+                        for c in 1..8usize.min(l) {
+                            let mut a = vec![Ev::Deliver(c), Ev::Settle]; burst(&mut a); a.extend([Ev::Settle, Ev::Deliver(l - c), Ev::Settle, Ev::Close, Ev::Settle]); scs.push(a);
+                            let mut a = vec![Ev::Deliver(c)]; burst(&mut a); a.extend([Ev::Settle, Ev::Deliver(l - c), Ev::Settle, Ev::Close, Ev::Settle]); scs.push(a);
+                        }
+                        for k in [0usize, 9, 60] {
+                            let mut a = vec![Ev::WriteBudget(k), Ev::Deliver(l), Ev::Settle]; burst(&mut a); a.extend([Ev::Settle, Ev::Unblock, Ev::Settle, Ev::Close, Ev::Settle]); scs.push(a);
+                        }
                     }
                 }
                 if bound == 1 && cuts.is_empty() && j == 1 {
